@@ -8,6 +8,14 @@
      c:/a/b:1,3 method call, handlers 1 and 3 accept ("-" = none)  -> c=<invoked>:<H|M|O>
      i:/a       Introspect call, nobody accepts   -> i=<invoked>:<children>
      l:/a       list_registered                   -> l=<children>
+     g:/a       dbus_connection_get_object_path_data -> g=<id|->
+     F:50 / G:50  add / remove connection filter 50 -> -
+     d:<path|->:<accept>:<oom>:<kind>:<actions>   any message through the whole of dbus_connection_dispatch
+                kind = <type c|s|r|e><interface n|p|i|o><member n|p|g|i|x>; oom = callbacks that answer NEED_MEMORY once;
+                actions = <id>=<op>+<op>;<id>=...  with op r~/p~id | f~/p~id | u~/p  (performed by callback <id> when it runs)
+                                                  -> d=<callbacks run>:<H|P|G|M|O|N|I<children>>
+     p:<accept> the host calls its peer; the reply belongs to the pending call -> p=<callbacks run>:1
+     z          end of life (last op): order of the unregister callbacks -> z=<ids>
    Paths are split at '/' here (the job of _dbus_decompose_path). *)
 open Model_objtree
 
@@ -37,8 +45,38 @@ let accept_set (s : string) : n -> bool =
   if s = "-" then (fun _ -> false)
   else let l = List.map int_of_string (String.split_on_char ',' s) in (fun h -> List.mem (int_of_n h) l)
 
+let compare_n a b = compare (int_of_n a) (int_of_n b)
+
+let msg_of (kind : string) (p : string) (pending : bool) : msg =
+  { m_type = (match kind.[0] with 'c' -> MethodCall | 's' -> Signal | 'r' -> MethodReturn | _ -> ErrorMsg);
+    m_iface = (match kind.[1] with 'p' -> IfPeer | 'i' -> IfIntrospectable | 'o' -> IfOther | _ -> IfNone);
+    m_member = (match kind.[2] with 'p' -> MemPing | 'g' -> MemGetMachineId | 'i' -> MemIntrospect | 'x' -> MemOther | _ -> MemNone);
+    m_path = (if p = "-" then None else Some (path_of_string p));
+    m_reply_pending = pending }
+
+(* "<id>=<op>+<op>;<id>=<op>"  with op  r~/p~id | f~/p~id | u~/p *)
+let actions_of (s : string) : n -> op list =
+  if s = "-" then (fun _ -> [])
+  else
+    let groups = List.map (fun g ->
+        match String.split_on_char '=' g with
+        | [id; os] ->
+            (int_of_string id,
+             List.map (fun o -> match String.split_on_char '~' o with
+                 | ["r"; p; h] -> Register (false, path_of_string p, n_of_int (int_of_string h))
+                 | ["f"; p; h] -> Register (true, path_of_string p, n_of_int (int_of_string h))
+                 | ["u"; p] -> Unregister (path_of_string p)
+                 | _ -> raise (Model_fault "?bad-action")) (String.split_on_char '+' os))
+        | _ -> raise (Model_fault "?bad-action")) (String.split_on_char ';' s) in
+    (fun h -> List.concat (List.map snd (List.filter (fun (id, _) -> id = int_of_n h) groups)))
+
+let reply_str (m : msg) = function
+  | RepByCallback -> (match m.m_type with MethodCall -> "H" | _ -> "N")
+  | RepPeerPing -> "P" | RepPeerMachineId -> "G" | RepUnknownMethod -> "M" | RepUnknownObject -> "O"
+  | RepIntrospect l -> "I" ^ names l | RepPendingCompleted -> "?pending" | RepNone -> "N"
+
 let run_history (ops : string list) : string =
-  let t = ref tree_new and s = ref [] in
+  let t = ref tree_new and s = ref [] and filters = ref [] in
   let mo = Buffer.create 64 and so = Buffer.create 64 in
   let add b x = (if Buffer.length b > 0 then Buffer.add_char b ' '); Buffer.add_string b x in
   List.iter (fun o ->
@@ -70,6 +108,36 @@ let run_history (ops : string list) : string =
           let pp = path_of_string p in
           add mo ("l=" ^ names (unres (list_registered !t pp)));
           add so ("l=" ^ names (s_children !s pp))
+      | ["g"; p] ->
+          let pp = path_of_string p in
+          let show = function None -> "-" | Some h -> string_of_int (int_of_n h) in
+          add mo ("g=" ^ show (unres (get_user_data !t pp)));
+          add so ("g=" ^ (match s_lookup !s pp with Some (h, _) -> show (Some h) | None -> "-"))
+      | [k; f] when k = "F" || k = "G" ->
+          let id = n_of_int (int_of_string f) in
+          (if k = "F" then filters := !filters @ [id]
+           else filters := List.rev (let rec rm = function [] -> [] | x :: r -> if x = id then r else x :: rm r in rm (List.rev !filters)));
+          add mo "-"; add so "-"
+      | ["d"; p; a; oom; kind; acts] ->
+          let m = msg_of kind p false in
+          let b = { accepts = accept_set a; actions = actions_of acts } in
+          let oo = if oom = "-" then [] else List.map (fun x -> n_of_int (int_of_string x)) (String.split_on_char ',' oom) in
+          let ((t', log), r) = unres (dispatch_message !t !filters m b oo) in
+          t := t'; add mo (Printf.sprintf "d=%s:%s" (ids log) (reply_str m r));
+          let ((s', log'), r') = unres (s_dispatch_message !s !filters m b oo) in
+          s := s'; add so (Printf.sprintf "d=%s:%s" (ids log') (reply_str m r'))
+      | "p" :: rest ->
+          let a = (match rest with [x] -> x | _ -> "-") in
+          let m = msg_of "rnn" "-" true in
+          let b = { accepts = accept_set a; actions = (fun _ -> []) } in
+          let ((t', log), r) = unres (dispatch_message !t !filters m b []) in
+          t := t'; add mo (Printf.sprintf "p=%s:%s" (ids log) (match r with RepPendingCompleted -> "1" | _ -> "0"));
+          let ((s', log'), r') = unres (s_dispatch_message !s !filters m b []) in
+          s := s'; add so (Printf.sprintf "p=%s:%s" (ids log') (match r' with RepPendingCompleted -> "1" | _ -> "0"))
+      | ["z"] ->
+          add mo ("z=" ^ ids (free_all !t));
+          (* the specification fixes the set (each registered handler exactly once), not the order *)
+          add so ("z=" ^ ids (List.sort compare_n (s_handlers !s)))
       | _ -> raise (Model_fault "?bad-op")) ops;
   Buffer.contents mo ^ " | " ^ Buffer.contents so
 
